@@ -773,6 +773,7 @@ func main() {
 		run.Set("requests_per_config", nreq)
 		run.Set("configs", len(cfgs))
 	}
+	os.RemoveAll(dir) // finish exits the process: deferred calls do not run
 	finish()
 }
 
